@@ -315,6 +315,8 @@ class Result:
     # -- S3
     def finish(self):
         self.cov['distinct_nontrivial'] = len(self._distinct)
+        if self.level == 'translation_validation' and not self.cov.get('programs'):
+            self.cov['programs'] = self.cov['distinct_nontrivial']      # designs / programs whose translation was validated
         wall = time.time() - self.t0
         ev = {'property_id': self.prop, 'tier': self.tier, 'seed': self.seed, 'level': self.level,
               'coverage': self.cov, 'assumptions': self.assumptions, 'wall_s': round(wall, 2),
